@@ -216,6 +216,72 @@ pub fn run_case(tier: &str, seed: u64, idx: u64) -> CaseOut {
         out.nontrivial(format!("held-by-owner/attackers{}/{}", n_attackers.min(6), if use_tmpfs { "tmpfs" } else { "osfs" }));
         outcomes.push(format!("r{round}:attacked x{}", attempts.load(Ordering::Relaxed)));
 
+        // ---- close while background work of this instance is still in flight ---------------
+        // The compaction thread is held inside a memtable flush; close has been called and must
+        // wait for that work. As long as the flush has not finished this instance still owns
+        // (and writes to) the directory, so no other open may succeed.
+        if round % 2 == 0 {
+            use crate::director::COMPACTOR;
+            let gate = d.arm(COMPACTOR, "flush.before_build", 1);
+            let rot0 = d.note_count("mem.rotate");
+            for i in 0..2000u64 {
+                counter += 1;
+                let k = format!("k{:03}", i % 40).into_bytes();
+                let v = format!("f{counter}-{}", "y".repeat(50)).into_bytes();
+                let _g = watch::enter("put(owner)");
+                if owner.put(WriteOptions::default(), k.clone(), v.clone()).is_err() {
+                    break;
+                }
+                model.insert(k, v);
+                if d.note_count("mem.rotate") > rot0 {
+                    break;
+                }
+            }
+            if d.wait_arrived(gate, Duration::from_secs(5)) {
+                let closing = Arc::clone(&owner);
+                drop(owner);
+                let closer = std::thread::Builder::new().name("c17-closer".into()).spawn(move || {
+                    set_role(1);
+                    let _g = watch::enter("close(owner)");
+                    if let Ok(db) = Arc::try_unwrap(closing) {
+                        drop(db);
+                    }
+                }).unwrap();
+                std::thread::sleep(Duration::from_millis(rng.range(5, 30)));
+                let mut intruders = 0;
+                for attempt in 0..rng.range(3, 10) {
+                    let _g = watch::enter("open(during-flush-of-closing-owner)");
+                    if let Ok(second) = DB::open(options(&fs, &db_path, memtable)) {
+                        intruders += 1;
+                        out.violate(
+                            "C17/second-open-succeeded-while-closing-owner-still-had-work-in-flight",
+                            json!({"ctx": ctx, "round": round, "attempt": attempt, "compaction_thread_parked_at": "flush.before_build"}),
+                        );
+                        drop(second);
+                        break;
+                    }
+                }
+                d.release(gate);
+                let _ = closer.join();
+                out.add("closes_with_work_in_flight", 1);
+                out.nontrivial(format!("close-with-flush-in-flight/{}/intruders{}", if use_tmpfs { "tmpfs" } else { "osfs" }, intruders));
+                // the database must now be free and intact
+                match DB::open(options(&fs, &db_path, memtable)) {
+                    Ok(db) => {
+                        verify_contents(&mut out, &db, &model, "after-close-with-work-in-flight", &ctx);
+                        drop(db);
+                    }
+                    Err(e) => out.violate("C17/owner-open-failed-although-nobody-holds-the-database", json!({"ctx": ctx, "round": round, "error": e.to_string()})),
+                }
+                if out.is_violated() {
+                    break;
+                }
+                continue;
+            }
+            d.release(gate);
+            out.add("flush_gate_not_reached", 1);
+        }
+
         // ---- close; then racing opens: exactly one winner ---------------------------------
         let park_close = round % 2 == 1;
         let gate = if park_close { Some(d.arm(1, "close.lock_released", 1)) } else { None };
